@@ -414,10 +414,11 @@ def _round_binary(lp_solution, int_set, c, A, b, minimize, eps):
             for j_off in ones:
                 net_gain = gain_on + sign * c[j_off]
                 if net_gain > best_gain:
+                    old_on, old_off = sol[j_on], sol[j_off]
                     sol[j_on], sol[j_off] = 1.0, 0.0
                     if _is_feasible(sol, A, b, int_set, eps):
                         best_gain, best_swap = net_gain, (j_on, j_off)
-                    sol[j_on], sol[j_off] = 0.0, 1.0
+                    sol[j_on], sol[j_off] = old_on, old_off
 
         if best_swap:
             j_on, j_off = best_swap
